@@ -1,0 +1,173 @@
+//go:build verif
+
+package pubkeyConverter
+
+// Contracts for govc (/verif). Comment-only file: no executable code, not part of the default build.
+
+/*@
+// ---- library model (github.com/btcsuite/btcutil/bech32, encoding/hex, runtime/debug): trusted --------------------------
+// Byte strings are handled as values: str(b) is the content of the byte slice b.
+// to5(s): the 8-bit groups of s regrouped into 5-bit groups, padded (ConvertBits(s, 8, 5, true)); all5: every group < 32;
+// to8/to8ok: the regrouping back without padding (ConvertBits(s, 5, 8, false)) and whether it succeeds.
+spec fn all5(s string) bool
+spec fn to8ok(s string) bool
+spec fn to8(s string) string
+spec fn to5(s string) string
+  axiom len(to5(s)) == (8*len(s) + 4) / 5
+  axiom all5(to5(s))
+  axiom regroup-back: to8ok(to5(s)) && to8(to5(s)) == s
+
+// benc(hrp, d): the bech32 text of the (lower-case) prefix hrp and the 5-bit groups d: hrp + "1" + characters of d + 6
+// checksum characters. bdecOK/bdecHrp/bdecData: what bech32.Decode makes of a text (Decode refuses texts longer than 90).
+spec fn bdecOK(s string) bool
+  axiom bdecOK(s) ==> 8 <= len(s) && len(s) <= 90
+spec fn bdecHrp(s string) string
+spec fn bdecData(s string) string
+spec fn benc(hrp string, d string) string
+  axiom len(benc(hrp, d)) == len(hrp) + 7 + len(d)
+  axiom decode-of-encode: hrp == "erd" && all5(d) && len(benc(hrp, d)) <= 90 ==> bdecOK(benc(hrp, d)) && bdecHrp(benc(hrp, d)) == hrp && bdecData(benc(hrp, d)) == d
+  axiom too-long-is-refused: len(benc(hrp, d)) > 90 ==> !bdecOK(benc(hrp, d))
+
+extern func bech32.Decode(bech string) (hrp string, data []byte, err error)
+  assigns nothing
+  ensures err == nil <==> bdecOK(bech)
+  ensures err == nil ==> hrp == bdecHrp(bech) && str(data) == bdecData(bech)
+
+extern func bech32.Encode(hrp string, data []byte) (r string, err error)
+  assigns nothing
+  ensures err == nil <==> all5(str(data))
+  ensures err == nil ==> r == benc(hrp, str(data))
+
+extern func bech32.ConvertBits(data []byte, fromBits uint8, toBits uint8, pad bool) (r []byte, err error)
+  assigns nothing
+  ensures fromBits == 8 && toBits == 5 && pad ==> err == nil && str(r) == to5(str(data))
+  ensures fromBits == 5 && toBits == 8 && !pad ==> (err == nil <==> to8ok(str(data))) && (err == nil ==> str(r) == to8(str(data)))
+
+// hexenc(s): lower-case hexadecimal text of s; hexOK/hexdec: what hex.DecodeString makes of a text
+spec fn hexOK(s string) bool
+spec fn hexdec(s string) string
+spec fn hexenc(s string) string
+  axiom len(hexenc(s)) == 2 * len(s)
+  axiom decode-of-encode: hexOK(hexenc(s)) && hexdec(hexenc(s)) == s
+
+extern func hex.EncodeToString(src []byte) (r string)
+  assigns nothing
+  ensures r == hexenc(str(src))
+
+extern func hex.DecodeString(s string) (r []byte, err error)
+  assigns nothing
+  ensures err == nil <==> hexOK(s)
+  ensures err == nil ==> str(r) == hexdec(s)
+
+extern func debug.Stack() (r []byte)
+  assigns nothing
+@*/
+
+/*@
+// ---- bech32 converter ---------------------------------------------------------------------------------------------------------
+struct bech32PubkeyConverter
+  invariant even-positive-length: len >= 2 && len % 2 == 0
+
+// the package variable bech32Config is initialised to {"erd", 8, 5, true} and never written
+spec fn erdConfig() bool = bech32Config.prefix == "erd" && bech32Config.fromBits == 8 && bech32Config.toBits == 5 && bech32Config.pad
+
+// the texts the converter of address length n accepts
+spec fn erdOK(n int, s string) bool = bdecOK(s) && bdecHrp(s) == "erd" && to8ok(bdecData(s)) && len(to8(bdecData(s))) == n
+
+func NewBech32PubkeyConverter(addressLen int) (r *bech32PubkeyConverter, err error)
+  ensures  accepts-even-positive-lengths: err == nil <==> addressLen >= 1 && addressLen % 2 == 0
+  ensures  configured: err == nil ==> r != nil && fresh(r) && r.len == addressLen && inv(r)
+  assigns  nothing
+
+func (bpc *bech32PubkeyConverter) Len() (r int)
+  ensures  r == bpc.len
+  assigns  nothing
+
+func (bpc *bech32PubkeyConverter) Decode(humanReadable string) (r []byte, err error)
+  requires config-never-written: erdConfig()
+  ensures  accepts-exactly: err == nil <==> erdOK(bpc.len, humanReadable)
+  ensures  decoded-bytes: err == nil ==> str(r) == to8(bdecData(humanReadable))
+  ensures  configured-length: err == nil ==> len(r) == bpc.len
+  ensures  rejects-bad-text-or-checksum: !bdecOK(humanReadable) ==> err != nil
+  ensures  rejects-other-prefix: bdecOK(humanReadable) && bdecHrp(humanReadable) != "erd" ==> err != nil
+  assigns  nothing
+
+func (bpc *bech32PubkeyConverter) Encode(pkBytes []byte) (r string)
+  requires config-never-written: erdConfig()
+  ensures  wrong-length-gives-empty-text: len(pkBytes) != bpc.len ==> r == ""
+  ensures  bech32-of-regrouped-bytes: len(pkBytes) == bpc.len ==> r == benc("erd", to5(str(pkBytes)))
+  assigns  nothing
+
+lemma bech32-round-trip-up-to-50-bytes
+  vars bpc *bech32PubkeyConverter, b []byte
+  hyp  inv(bpc) && erdConfig() && len(b) == bpc.len
+  hyp  text-fits-90-characters: bpc.len <= 50
+  call s = bpc.Encode(b)
+  call r, err = bpc.Decode(s)
+  concl decodes: err == nil
+  concl same-bytes: str(r) == str(b)
+
+// every length the constructor accepts (finding: fails above 50 bytes, the text exceeds the 90 characters bech32.Decode takes)
+lemma bech32-round-trip
+  vars bpc *bech32PubkeyConverter, b []byte
+  hyp  inv(bpc) && erdConfig() && len(b) == bpc.len
+  call s = bpc.Encode(b)
+  call r, err = bpc.Decode(s)
+  concl decodes: err == nil
+  concl same-bytes: err == nil ==> str(r) == str(b)
+
+// the defect stated positively: above 50 bytes every encoded address is refused by the converter's own Decode
+lemma bech32-round-trip-refused-above-50-bytes
+  vars bpc *bech32PubkeyConverter, b []byte
+  hyp  inv(bpc) && erdConfig() && len(b) == bpc.len
+  hyp  text-exceeds-90-characters: bpc.len > 50
+  call s = bpc.Encode(b)
+  call r, err = bpc.Decode(s)
+  concl refused: err != nil
+
+lemma bech32-other-length-gives-empty-text-which-is-refused
+  vars bpc *bech32PubkeyConverter, b []byte
+  hyp  inv(bpc) && erdConfig() && len(b) != bpc.len
+  call s = bpc.Encode(b)
+  call r, err = bpc.Decode(s)
+  concl empty: s == ""
+  concl refused: err != nil
+
+// ---- hex converter ------------------------------------------------------------------------------------------------------------
+struct hexPubkeyConverter
+  invariant even-positive-length: len >= 2 && len % 2 == 0
+
+func NewHexPubkeyConverter(addressLen int) (r *hexPubkeyConverter, err error)
+  ensures  accepts-even-positive-lengths: err == nil <==> addressLen >= 1 && addressLen % 2 == 0
+  ensures  configured: err == nil ==> r != nil && fresh(r) && r.len == addressLen && inv(r)
+  assigns  nothing
+
+func (ppc *hexPubkeyConverter) Len() (r int)
+  ensures  r == ppc.len
+  assigns  nothing
+
+func (ppc *hexPubkeyConverter) Decode(humanReadable string) (r []byte, err error)
+  ensures  accepts-exactly: err == nil <==> hexOK(humanReadable) && len(hexdec(humanReadable)) == ppc.len
+  ensures  decoded-bytes: err == nil ==> str(r) == hexdec(humanReadable)
+  ensures  configured-length: err == nil ==> len(r) == ppc.len
+  assigns  nothing
+
+func (ppc *hexPubkeyConverter) Encode(pkBytes []byte) (r string)
+  ensures  hex-of-bytes: r == hexenc(str(pkBytes))
+  assigns  nothing
+
+lemma hex-round-trip
+  vars ppc *hexPubkeyConverter, b []byte
+  hyp  len(b) == ppc.len
+  call s = ppc.Encode(b)
+  call r, err = ppc.Decode(s)
+  concl decodes: err == nil
+  concl same-bytes: str(r) == str(b)
+
+lemma hex-other-length-rejected
+  vars ppc *hexPubkeyConverter, b []byte
+  hyp  len(b) != ppc.len
+  call s = ppc.Encode(b)
+  call r, err = ppc.Decode(s)
+  concl rejected: err != nil
+@*/
